@@ -52,6 +52,39 @@ def check_case(ctx, c):
         got = None if r is None else [complex(v) for v in np.asarray(r.values).reshape(-1)]
         if got is None or len(got) != len(want) or any(abs(g - w) > 1e-9 for g, w in zip(got, want)):
             out.append(("value:" + names[p], "%s: result at position %d (%s) is %s, required %s" % (desc, p, names[p], got, want)))
+    # what came back is the caller's: every result is edited in place, then the same request is made again (fresh tasks, the same
+    # simulator) - the answers are the specification's answers again
+    for r in res:
+        try:
+            np.asarray(r.values)[...] = 1.5
+            if r.estimator_covariances is not None:
+                for m_ in r.estimator_covariances:
+                    np.asarray(m_)[...] = 0.25
+        except (ValueError, TypeError):
+            pass
+    try:
+        res2 = estimate_expectation_values_by_averaging(sim, [real_task(t) for t in c["tasks"]])
+        for p, (r, want) in enumerate(zip(res2, c["res"])):
+            got = None if r is None else [complex(v) for v in np.asarray(r.values).reshape(-1)]
+            if got is None or len(got) != len(want) or any(abs(g - w) > 1e-9 for g, w in zip(got, want)):
+                out.append(("value:after-edit:" + names[p], "%s: after the caller edited the results of a first call in place, the same request gives %s at position %d (%s), required %s" % (desc, got, p, names[p], want)))
+    except Exception as ex:
+        out.append(("raised:second-call", "%s: the same request a second time raised %s: %s" % (desc, type(ex).__name__, str(ex)[:150])))
+    # coefficients of round-off size are coefficients: on a basis state the value is exactly coefficient times eigenvalue
+    from orquestra.quantum.api.estimation import EstimationTask as _ET
+    from orquestra.quantum.circuits import Circuit as _C, X as _X
+    from orquestra.quantum.operators import PauliSum as _PS, PauliTerm as _PT
+
+    small = [_ET(_PT({0: "Z"}, 6e-9), _C([_X(0)]), 5), _ET(_PS([_PT({}, 2.5), _PT({1: "Z"}, 3e-9), _PT({0: "Z", 1: "Z"}, -8e-9)]), _C([_X(0)], n_qubits=2), 5)]
+    want_small = [[-6e-9], [2.5, 3e-9, 8e-9]]
+    try:
+        rs = estimate_expectation_values_by_averaging(sim, small)
+        for r, w_ in zip(rs, want_small):
+            got = [complex(v) for v in np.asarray(r.values).reshape(-1)]
+            if len(got) != len(w_) or any(abs(g - x_) > 1e-15 for g, x_ in zip(got, w_)):
+                out.append(("value:small-coefficients", "%s; additionally an operator with coefficients of size 1e-9 on a basis state: values %s, coefficient times eigenvalue %s" % (desc, got, w_)))
+    except Exception as ex:
+        out.append(("raised:small-coefficients", "estimation of operators with coefficients of size 1e-9 raised %s: %s" % (type(ex).__name__, str(ex)[:150])))
     tm, tn, im, inn = split_estimation_tasks_to_measure(tasks)
     if [i + 1 for i in im] != c["measured"] or [i + 1 for i in inn] != c["notmeasured"]:
         out.append(("split", "%s: split indices %s / %s, specification %s / %s" % (desc, im, inn, c["measured"], c["notmeasured"])))
